@@ -404,7 +404,7 @@ fn pick_rate(r: &mut Rng) -> u32 {
 /// Positions of interest for a sequence of `len` bits: word / rank-block / L1 / L2 edges ±2,
 /// the ends, and `extra` random ones.
 fn positions(r: &mut Rng, len: usize, extra: usize, cap: usize) -> Vec<usize> {
-    let halo = if extra >= 100 { 2usize } else { 1 };
+    let halo = if extra >= 50 { 2usize } else { 1 };
     let mut ps = Vec::new();
     if len <= cap {
         ps.extend(0..len + 2);
@@ -602,7 +602,7 @@ pub fn gen(tier: Tier, r: &mut Rng, emit: &mut dyn FnMut(String)) {
     }
 
     // ---- large inputs
-    let (nlarge, maxlen) = if quick { (15, 70_000usize) } else { (400, 262_144usize) };
+    let (nlarge, maxlen) = if quick { (15, 70_000usize) } else { (40, 262_144usize) };
     for i in 0..nlarge {
         let kind = i as u64 % NKINDS;
         let target = match i % 5 {
@@ -624,7 +624,7 @@ pub fn gen(tier: Tier, r: &mut Rng, emit: &mut dyn FnMut(String)) {
         let b = Bits { v: bits };
         let garbage = r.chance(2, 3);
         let (ws, len) = b.to_words(r, garbage);
-        let ps = positions(r, len, if quick { 20 } else { 120 }, 0);
+        let ps = positions(r, len, if quick { 20 } else { 60 }, 0);
         let ones = count_ones(&ws, len);
         let ctor = pick_ctor(r);
         emit_all_ops(r, emit, &ws, len, &ctor, &ps, ones);
@@ -641,7 +641,7 @@ pub fn gen(tier: Tier, r: &mut Rng, emit: &mut dyn FnMut(String)) {
             bits.extend(std::iter::repeat(false).take(depth.min(262_144 - depth)));
             let b = Bits { v: bits };
             let (ws, len) = b.to_words(r, true);
-            let ps = positions(r, len, 100, 0);
+            let ps = positions(r, len, 50, 0);
             let ones = count_ones(&ws, len);
             for ctor in ["new", "fwc"] {
                 emit_all_ops(r, emit, &ws, len, ctor, &ps, ones);
